@@ -378,9 +378,13 @@ def check_transient_fault(case, ctx):
             ff = FaultyFile(fail_at=k, keep=0, transient=True)
             writer = RecordStreamWriter(ff) if wrap == "stream" else StreamWriter(ff)
             ok = []
+            swallowed = None
             for r, fl in zip(records, case["flush"]):
+                fired_before = ff.fault_offset is not None
                 res = impl(writer.write, r)
                 ok.append(res.ok)
+                if res.ok and not fired_before and ff.fault_offset is not None:
+                    swallowed = len(ok) - 1  # the file object's write raised inside this write(), which returned normally
                 if not res.ok and not isinstance(res.exc, OSError):
                     raise Violation("transient/%s/write-raised-other" % wrap, "write raised %r" % (res,))
                 if fl:
@@ -391,6 +395,15 @@ def check_transient_fault(case, ctx):
             except Exception:
                 pass
             ctx.count(1)
+            if all(ok) and swallowed is not None:
+                # the caller was told that every record is written: then every record must be readable
+                ctx.cls("transient:fault-not-reported")
+                got, rexc = _read_prefix(lambda: RecordStreamReader(io.BytesIO(ff.getvalue())))
+                if [observe(r) for r in got] != obs_full:
+                    raise Violation("transient/%s/error-swallowed-records-lost" % wrap, "write call %d on the file object raised "
+                                    "inside write() of record %d, which returned normally like every other write(); the file "
+                                    "reads back %d of %d records (%r)" % (k, swallowed, len(got), len(obs_full), rexc))
+                continue
             if all(ok):
                 ctx.cls("transient:fault-outside-record-writes")  # header write / flush
                 continue
